@@ -160,6 +160,21 @@ func runSplitCase(c *engine.Ctx, s *world.Server, node *world.Node, sc splitCase
 			}
 		}(name, ln)
 	}
+	if sc.Order%2 == 1 {
+		// another component looks the registered names up again, without or with the opposite native-connection
+		// setting, and does not use what it gets: the sub-listeners keep what they were registered with
+		for _, name := range names {
+			if _, err := sl.GetListener(name, nodeenrollment.WithNativeConns(!sc.Native)); err != nil {
+				r.Broken("second GetListener: " + err.Error())
+				return
+			}
+			if _, err := sl.GetListener(name); err != nil {
+				r.Broken("third GetListener: " + err.Error())
+				return
+			}
+		}
+		r.Count("topologies_with_repeated_lookups", 1)
+	}
 	startDone := make(chan error, 1)
 	go func() { startDone <- sl.Start() }()
 
@@ -435,5 +450,6 @@ func runSplit(c *engine.Ctx) engine.Result {
 	r.Require("sublisteners_reported_closed", 10)
 	r.Require("base_listener_closed_with_own_sentinel", 10)
 	r.Require("topologies_with_late_consumers", 1)
+	r.Require("topologies_with_repeated_lookups", 10)
 	return res
 }
